@@ -43,3 +43,9 @@ for mid in sorted(os.listdir(os.path.join(ROOT, "seeded"))):
     finally:
         subprocess.run(["git", "-C", "/repo", "worktree", "remove", "--force", wt])
 print(json.dumps(rows))
+if not a.only:
+    # full board: keep it next to the mutants (development record; the checks never read it)
+    out = os.path.join(ROOT, "seeded", "SCOREBOARD-sweeps.json" if a.sweeps else "SCOREBOARD.json")
+    head = subprocess.run(["git", "-C", ROOT, "rev-parse", "--short", "HEAD"], capture_output=True, text=True).stdout.strip()
+    json.dump({"verif_commit": head, "seed": a.seed, "shards": a.shards, "runs_per_shard": a.runs, "sweeps_per_shard": a.sweeps,
+               "rows": [list(r) for r in rows]}, open(out, "w"), indent=1)
